@@ -477,7 +477,7 @@ def traceLine (s : JState) (unitSeen : Nat) (line : String) : JState × Nat :=
   | ["lb", name, "stale"] => (registerLoad s name, unitSeen)
   | ["lb", _, "needs", _] => (s, unitSeen)
   | "sv" :: name :: t :: _ =>
-    let old := ((s.links.lookup name).getD []).filter (fun q => outdatedO s 20 q.1 q.2)
+    let old := ((s.links.lookup name).getD []).filter (fun q => outdatedO s 64 q.1 q.2)
     match t.toNat? with
     | some t =>
       let dm := s.damaged.filter (fun x => x != name)
